@@ -234,6 +234,24 @@ func checkC44(env *kernel.Env) {
 					env.Fail("user-variable-scope", "user-variable-wrong", "after %s: %s sees @%s = %q (err %v), model %q", what, x.s.Name, u, got, r.Err, want)
 					return
 				}
+				if want != "NULL" {
+					// the variable carries the type of the value assigned last, not of an earlier
+					// one: as a string it concatenates and compares as that text, as a number it
+					// compares as that number
+					r2 := x.s.Exec(fmt.Sprintf("SELECT CONCAT(@%s, '|'), @%s = 'zz-other', @%s = '%s'", u, u, u, strings.ReplaceAll(want, "'", "''")))
+					wantOther := "0"
+					if want == "0" {
+						wantOther = "1" // a number equals a text that converts to it
+					}
+					if r2.Err != nil || c44Canon(r2.Rows[0][0]) != want+"|" || c44Canon(r2.Rows[0][1]) != wantOther || c44Canon(r2.Rows[0][2]) != "1" {
+						got := "?"
+						if r2.Err == nil {
+							got = c44Canon(r2.Rows[0][0]) + " / " + c44Canon(r2.Rows[0][1]) + " / " + c44Canon(r2.Rows[0][2])
+						}
+						env.Fail("user-variable-scope", "user-variable-typed-wrong", "after %s: %s has @%s = %q but CONCAT(@%s,'|') / @%s = 'zz-other' / @%s = its own text give %s (err %v); want %s| / %s / 1", what, x.s.Name, u, want, u, u, u, got, r2.Err, want, wantOther)
+						return
+					}
+				}
 			}
 		}
 	}
